@@ -400,7 +400,7 @@ impl Property for C31 {
         ]
     }
     fn cases(&self, tier: Tier) -> u32 {
-        tier.pick(12_000, 2_000_000)
+        tier.pick(12_000, 600_000)
     }
     fn isolated(&self) -> bool {
         true
